@@ -24,8 +24,8 @@ TRUSTED = ["fake multiprocessing / clock / kill (harness/impl/fake_mp.py) under 
            "reproduce three times"]
 
 ALPHA = ["equal", "different", "player_raises", "extractor_raises", "exit0", "exit1", "hang", "hang_deaf",
-         "slow:1", "slow:2", "slow:3", "slow:4", "slow:5"]
-W = [22, 3, 3, 3, 9, 9, 10, 8, 3, 3, 3, 3, 2]
+         "slow:1", "slow:2", "slow:3", "slow:4", "slow:5", "unloadable", "put_raises"]
+W = [22, 3, 3, 3, 9, 9, 10, 8, 3, 3, 3, 3, 2, 8, 4]
 
 
 def generate(rng, tier):
@@ -45,6 +45,29 @@ def generate(rng, tier):
             if tier != "quick" or n == maxlen:
                 k = (sum(map(len, behs)) + rate) % (n + 1)
                 cases.append(G.mk(ids, behs, rate=rate, timeout=1, consume=(["close", "raise", "iter_raises"][(k + rate) % 3], k)))
+    # replays whose failure leaves the worker in place (answer the parent cannot load, (False, message) answer,
+    # raising stage) at every position of a recycle period: ages must still advance
+    stay = ["equal", "unloadable", "put_raises", "player_raises"]
+    for ids, behs in G.exhaustive(stay, 3 if tier == "quick" else 5):
+        n = len(ids)
+        if n >= 2 and any(b != "equal" for b in behs):
+            for rate in ((1, 2) if tier == "quick" else (1, 2, 3)):
+                cases.append(G.mk(ids, behs, rate=rate, timeout=1 + n % 2, keep=bool(n % 2), probe="worker-stays"))
+    # an idle worker that dies - between two replays (dies_before: first, last, after a fault, right after a recycle)
+    # or killed at the timeout because its answer never arrived (drops): what it leaves behind where it slept
+    # (queue lock, event sleeper) must not stop the run, the next recycle or the clean-up
+    idle = ["equal", "dies_before", "drops", "exit0"]
+    for ids, behs in G.exhaustive(idle, 3 if tier == "quick" else 4):
+        n = len(ids)
+        if any(b in ("dies_before", "drops") for b in behs):
+            for rate in (1, 2, 3):
+                if rate == 3 and (tier == "quick" or n < 3):
+                    continue
+                cases.append(G.mk(ids, behs, rate=rate, timeout=1, probe="idle-death"))
+                if n == 3:
+                    k = (sum(map(len, behs)) + rate) % (n + 1)
+                    cases.append(G.mk(ids, behs, rate=rate, timeout=1, probe="idle-death",
+                                      consume=(["close", "raise", "iter_raises"][(k + rate) % 3], k)))
     # probe stream for the known finding F08: a late answer can make the run block forever / leak a hung worker
     n_probe = 20 if tier == "quick" else 300
     for k in range(n_probe):
@@ -102,8 +125,8 @@ def direct(case, obs):
     cmps = obs["cmps"]
     # (1) the run finishes and continues after every fault
     if obs["outcome"] == "deadlock":
-        fails.append((sig("run-blocks-forever"), "parent blocks forever after %d of %d recordings (join of a hung worker)"
-                      % (len(cmps), n)))
+        fails.append((sig("run-blocks-forever"), "parent blocks forever after %d of %d recordings (%s)"
+                      % (len(cmps), n, obs.get("why") or "join of a hung worker")))
     elif obs["outcome"] in ("abort-exit", "blocks"):
         fails.append(("run-aborted", "run ended with %s" % obs["outcome"]))
     elif len(cmps) != n:
@@ -159,8 +182,8 @@ def features(case):
 
 
 def nontrivial(case):
-    return any(G.fatal_dedicated(G.beh_of(case, i), case["timeout"]) for i in case["ids"]) or \
-        case.get("consume", ["full"])[0] != "full"
+    return any(G.fatal_dedicated(G.beh_of(case, i), case["timeout"]) or G.beh_of(case, i) in G.ANSWER_BEH
+               for i in case["ids"]) or case.get("consume", ["full"])[0] != "full"
 
 
 def shrink_candidates(case):
